@@ -78,7 +78,7 @@ def any_shape(centered=False, lo=0.2, oriented=True):
 def build_shape(r):
     """Library shape of a recipe. "warm": the object has been in ordinary use before it is handed on (its vertices,
     exported geometry and a containment answer have been asked for, so whatever it computes lazily exists)."""
-    sh = _build_shape(r)
+    sh = _build_shape_via_setters(r) if r.get("setters") else _build_shape(r)
     if r.get("warm"):
         getattr(sh, "vertices", None)
         sh.shapely_object
@@ -129,6 +129,37 @@ def export_agrees(shape, tol):
             if d:
                 return d
     return None
+
+
+def _build_shape_via_setters(r):
+    """The same shape, reached through the public setters: it is constructed with other values, used once (so that
+    everything it derives lazily exists), and then receives the recipe's values attribute by attribute."""
+    k = r["k"]
+    probe = np.array([0.3, -0.2])
+    if k == "rect":
+        c = r.get("c") or [0.0, 0.0]
+        sh = Rectangle(2.0 * r["l"] + 1.0, 0.5 * r["w"] + 0.1, np.array([c[0] + 3.0, c[1] - 2.0]), 0.3)
+        sh.vertices, sh.shapely_object, sh.contains_point(probe)
+        sh.length, sh.width = r["l"], r["w"]
+        sh.center = np.array(c, dtype=float)
+        sh.orientation = r.get("o") or 0.0
+        return sh
+    if k == "circle":
+        c = r.get("c") or [0.0, 0.0]
+        sh = Circle(0.5 * r["r"] + 0.1)
+        sh.shapely_object, sh.contains_point(probe)
+        sh.center = np.array(c, dtype=float)
+        sh.radius = r["r"]
+        return sh
+    if k == "poly":
+        target = Polygon(np.array(r["v"], dtype=float))
+        sh = Polygon(np.array(r["v"], dtype=float) + np.array([3.0, -2.0]))
+        sh.shapely_object, sh.contains_point(probe), sh.center
+        sh.vertices = np.array(target.vertices)      # the closed, clockwise ring the constructor would store
+        return sh
+    if k == "group":
+        return ShapeGroup([_build_shape_via_setters(m) for m in r["m"]])
+    raise ValueError(k)
 
 
 def _build_shape(r):
